@@ -398,6 +398,7 @@ func ruleT6(c *Ctx) *RuleResult {
 		// (b) clears it only when consumed at a random-access unit — in the writer itself, or in a helper that
 		// the writer calls with its random-access flag and whose result is the params-changed flag
 		cfn, cra, cpc, cFalse := fn, ra, pc, setFalse
+		var helperReturns *ssa.Function
 		if len(setFalse) == 0 {
 			if call, ok := pc.(*ssa.Call); ok && call.Call.StaticCallee() != nil && InLib(call.Call.StaticCallee()) {
 				h := call.Call.StaticCallee()
@@ -417,12 +418,18 @@ func ruleT6(c *Ctx) *RuleResult {
 					}
 				}
 				var hpc ssa.Value
+				nret := 0
 				for _, b := range h.Blocks {
 					if ret, ok := b.Instrs[len(b.Instrs)-1].(*ssa.Return); ok && len(ret.Results) == 1 {
 						hpc = retVal(ret, 0)
+						nret++
 					}
 				}
-				if len(hFalse) > 0 && hra != nil && hpc != nil {
+				if nret > 1 {
+					hpc = nil
+					helperReturns = h // several returns: judged by the constant each one returns (below)
+				}
+				if len(hFalse) > 0 && hra != nil && (hpc != nil || helperReturns != nil) {
 					cfn, cra, cpc, cFalse = h, hra, hpc, hFalse
 				}
 			}
@@ -449,6 +456,21 @@ func ruleT6(c *Ctx) *RuleResult {
 							if pred == st.Block() || st.Block().Dominates(pred) {
 								okPC = true
 							}
+						}
+					}
+				}
+				if helperReturns != nil {
+					// early-return form: every return reached after the clear yields true, every other one false
+					okPC = true
+					for _, b := range helperReturns.Blocks {
+						ret, isRet := b.Instrs[len(b.Instrs)-1].(*ssa.Return)
+						if !isRet {
+							continue
+						}
+						bv, isB := constBool(retVal(ret, 0))
+						after := st.Block() == b || st.Block().Dominates(b)
+						if !isB || bv != after {
+							okPC = false
 						}
 					}
 				}
@@ -1210,21 +1232,23 @@ func countedIndexOver(idx ssa.Value) (bool, ssa.Value) {
 	if !ok {
 		return false, nil
 	}
-	zero, step := false, false
-	for _, e := range phi.Edges {
-		if k, ok := constInt(e); ok && k == 0 {
-			zero = true
-			continue
-		}
+	// edges: one start value (0, or any value computed before the loop — a loop that starts at `skipped`) and the step
+	start, step := 0, false
+	for i, e := range phi.Edges {
 		if add, ok := e.(*ssa.BinOp); ok && add.Op == token.ADD && add.X == ssa.Value(phi) {
 			if k, ok := constInt(add.Y); ok && k == 1 {
 				step = true
 				continue
 			}
+			return false, nil
 		}
-		return false, nil
+		// a start value: comes over an edge from outside the loop
+		if phi.Block().Dominates(phi.Block().Preds[i]) {
+			return false, nil
+		}
+		start++
 	}
-	if !zero || !step || phi.Referrers() == nil {
+	if start != 1 || !step || phi.Referrers() == nil {
 		return false, nil
 	}
 	for _, ref := range *phi.Referrers() {
